@@ -74,7 +74,7 @@ func (e *Enc) cellEnv(f *frame, pos token.Pos, st *State) *Env {
 	byName := map[string][]*ssa.Alloc{}
 	for _, b := range f.fn.Blocks {
 		for _, in := range b.Instrs {
-			if a, ok := in.(*ssa.Alloc); ok && a.Comment != "" {
+			if a, ok := in.(*ssa.Alloc); ok && a.Comment != "" && a.Pos().IsValid() {
 				allocs[a.Pos()] = a
 				byName[a.Comment] = append(byName[a.Comment], a)
 			}
@@ -92,7 +92,7 @@ func (e *Enc) cellEnv(f *frame, pos token.Pos, st *State) *Env {
 	env.resolve = func(name string) (TV, bool) {
 		var a *ssa.Alloc
 		if scope != nil {
-			if _, obj := scope.LookupParent(name, pos); obj != nil {
+			if _, obj := scope.LookupParent(name, pos); obj != nil && obj.Pos().IsValid() {
 				a = allocs[obj.Pos()]
 				if a == nil {
 					// parameters: the Alloc carries the parameter's position
